@@ -81,7 +81,11 @@ let parse_op (toks : string list) : M.op =
       let a = tz r in let b = tz r in let k = tz r in let l = tz r in let e = tz r in M.OGrant (a, b, k, l, e)
   | "REVOKE" -> let a = tz r in let b = tz r in let k = tz r in M.ORevoke (a, b, k)
   | "SEND" -> let a = tz r in let b = tz r in let k = tz r in M.OSend (a, b, k)
-  | "PROP" -> let sg = tz r in let tk = ticket r in let li = tz r in let keys = tlist r tz in M.OPropose (sg, tk, keys, li)
+  | "PROP" ->
+      (* a key id k >= 100 in a history stands for the PEM of key (k mod 100) surrounded by extra white space: the same
+         key as far as the chain is concerned (utils.RemoveDuplicateStrs trims before comparing) *)
+      let norm k = let n = c2z k in if Z.geq n (Z.of_int 100) then z2c (Z.rem n (Z.of_int 100)) else k in
+      let sg = tz r in let tk = ticket r in let li = tz r in let keys = List.map norm (tlist r tz) in M.OPropose (sg, tk, keys, li)
   | "VOTE" -> let sg = tz r in let tk = ticket r in let vi = tz r in let pid = tz r in let v = tz r in M.OVote (sg, tk, vi, pid, v)
   | "SCRE" -> let c = tz r in let o = tz r in let ls = tlist r (fun r -> let t = tz r in let a = tz r in (t, a)) in M.OSubCreate (c, o, ls)
   | "STOP" -> let c = tz r in let o = tz r in let ls = tlist r (fun r -> let t = tz r in let a = tz r in (t, a)) in M.OSubTopUp (c, o, ls)
